@@ -43,15 +43,15 @@ type c34inst struct {
 }
 
 type c34world struct {
-	ts     *util.SimpleTimers
-	insts  []*c34inst
-	ev     chan c34event
-	held   map[int]bool
-	inCb   map[int]bool
+	ts      *util.SimpleTimers
+	insts   []*c34inst
+	ev      chan c34event
+	held    map[int]bool
+	inCb    map[int]bool
 	latest  map[int]int  // id -> instance registered last (what the harness did)
 	removed map[int]bool // instances whose whenRemoved was seen
-	viol   []string
-	closed int32
+	viol    []string
+	closed  int32
 }
 
 func (w *c34world) newInst(id int, oneshot bool) *c34inst {
